@@ -457,6 +457,10 @@ fn scenario(ctxrc: SharedCtx, report: Rc<RefCell<Report>>) {
             ctxrc.borrow_mut().probe("all_forwarded_before_end");
         }
     }
+    // (2b) the thread ends only with the connection
+    if outcome.is_none() && thread_gone && !ended_flag {
+        outcome = Some(viol("c20/thread-died-on-live-session", &format!("{:?}", packing), format!("the receive thread ended (bitmap channel disconnected) although the server never ended the session; {} of {} rectangles had been forwarded", received.len(), sent_before_end.len())));
+    }
     // (1) keep-up at quiescence
     if outcome.is_none() && plan.end == EndMode::None {
         if quiescent || driver_done.load(Ordering::SeqCst) && shared.borrow().rdp_waiting {
